@@ -320,6 +320,10 @@ fn efg_fault(s: &mut Stream, efg: &cli::EfgText, tree: &T, constant: f64) -> Opt
             if lines.iter().filter(|l| l.kind == 't' && l.text.split_whitespace().nth(2) == Some(num.as_str())).count() != 1 {
                 return None;
             }
+            if efg.interior_outcome_numbers.iter().any(|n| n.to_string() == num) {
+                // an interior node carries this outcome too (and may repeat its payoff list)
+                return None;
+            }
             let (factor, expect): (f64, Expect) = match s.below(5) {
                 0 => (1.01, Expect::Reject("gambit-not-constant-sum-1.01", vec!["constant"])),
                 1 => (2.0, Expect::Reject("gambit-not-constant-sum-2", vec!["constant"])),
@@ -348,6 +352,10 @@ fn efg_fault(s: &mut Stream, efg: &cli::EfgText, tree: &T, constant: f64) -> Opt
             let i = pick_line(s, 't')?;
             let num = lines[i].text.split_whitespace().nth(2)?.to_string();
             if lines.iter().filter(|l| l.kind == 't' && l.text.split_whitespace().nth(2) == Some(num.as_str())).count() != 1 {
+                return None;
+            }
+            if efg.interior_outcome_numbers.iter().any(|n| n.to_string() == num) {
+                // an interior node carries this outcome too (and may repeat its payoff list)
                 return None;
             }
             let mut t = texts.clone();
@@ -529,7 +537,8 @@ pub fn decode(bytes: &[u8]) -> Option<Case> {
         }
         (text, expect, nf)
     } else {
-        let text = cli::to_json_text(&tree, &mut s);
+        // corruptions are placed relative to the document itself, not to whitespace around it
+        let text = cli::to_json_text(&tree, &mut s).trim().to_string();
         json_fault(&mut s, &text)?
     };
     Some(Case {
